@@ -519,7 +519,7 @@ def standin(tier, seed):
     evals, nontriv, failures, samples = 0, set(), [], []
     NAMES = ["foo", "FOO", "Bar-x"]
     NAMES2 = ["X-Sha256Sum", "x-sha256sum", "X_Request_Id", "x_request_id", "X-SHA256SUM"]
-    VALS = ["1", "a,b", "x y"]
+    VALS = ["1", "a,b\xa0", "x y\x85"]          # (values may end in obs-text bytes that str.strip()/rstrip() would take for white space: \xa0, \x85)
 
     def norm(n):
         return "-".join(w.capitalize() for w in n.split("-"))
